@@ -116,7 +116,14 @@ def terOps (n : Nat) (before after : Nat → St) (i : Nat) : List Op :=
   List.replicate (countOthers n i fun k => !(before k).blocker && (after k).blocker) Op.addDownOther ++
   List.replicate (countOthers n i fun k => (before k).blocker && !(after k).blocker) Op.removeDownOther
 
-def mstep (m : MSt) (op : MOp) : MSt :=
+/-- the same function, with its values at `0 … n-1` computed once (the executable driver would otherwise re-run the whole
+    history on every access); `memo_eq` (Proofs/ForwardMulti.lean): `memo n f = f` -/
+def memo (n : Nat) (f : Nat → St) : Nat → St :=
+  let arr := ((List.range n).map f).toArray
+  fun i => if h : i < arr.size then arr[i] else f i
+
+/-- the specification of one step (see `mstep`) -/
+def mstepSpec (m : MSt) (op : MOp) : MSt :=
   let hs1 := fun i => run (m.hs i) (priOps m op i)
   let hs2 := fun i => run (hs1 i) (secOps m.n m.hs hs1 i)
   let hs3 := fun i => run (hs2 i) (terOps m.n m.hs hs2 i)
@@ -132,6 +139,11 @@ def mstep (m : MSt) (op : MOp) : MSt :=
     | .restart sy => if !alive && sy then 0 else m.extra
     | _ => m.extra
   { n := m.n, hs := hs3, events := ev, extra := ex }
+
+/-- one step of the N-machine: `mstepSpec` with the per-HTLC records tabulated -/
+def mstep (m : MSt) (op : MOp) : MSt :=
+  let r := mstepSpec m op
+  { r with hs := memo r.n r.hs }
 
 def minit (n : Nat) : MSt := { n := n, hs := fun _ => Forward.init }
 
